@@ -157,8 +157,16 @@ func VerifC03String(n int) {
 // VerifC03Fixnum: a fixnum printed in base b with or without *print-radix*
 // reads back as the same fixnum (with radix in any base; without radix in
 // base 10, the default *read-base*).
-func VerifC03Fixnum(base int, radix int) {
+func VerifC03Fixnum(base int, radix int, maxdigits int) {
 	x := vrt.Int64("x")
+	if 0 < maxdigits {
+		// with letters as digits every digit forks on digit/letter: bound the length
+		lim := int64(1)
+		for i := 0; i < maxdigits; i++ {
+			lim *= int64(base)
+		}
+		vrt.Assume(-lim < x && x < lim)
+	}
 	p := zzC03Printer(true)
 	p.Base = uint(base)
 	p.Radix = radix != 0
